@@ -24,6 +24,12 @@ func plans() []nrun.Plan {
 	}
 	add(pscen.Plans(), 1, 2)
 	add(extraPlans(), 0, 1)
+	// generated families (configurations x scripts x gates), bursts of the default schedule
+	for _, p := range append(pscen.GenPlans(), genExtra()...) {
+		p.QuickBudget, p.ThoroughBudget, p.Weight = 0, 0, 5
+		p.Allow = nil
+		out = append(out, p)
+	}
 	return out
 }
 
